@@ -548,6 +548,22 @@ fn gen_dests(rng: &mut Rng, cfg: &Cfg) -> (Vec<u32>, Vec<Desc>) {
     (wpath, outs)
 }
 
+
+/// a sequence value for input 0: mostly one of the permitted values `good`, otherwise a neighbour, a classic
+/// constant, or a permitted value with BIP68 high bits set (disable flag, time-units flag, bit 16, all of the
+/// high half) - the full 32-bit value must match, not only the low 16 bits
+fn gen_seq(rng: &mut Rng, good: &[u32]) -> u32 {
+    let g = *rng.pick(good);
+    match rng.below(16) {
+        0 => g.wrapping_add(1),
+        1 => g.wrapping_sub(1),
+        2 => *rng.pick(&[0u32, 0xffff_ffff, 0xffff_fffe, 0xffff_fffd, 1, 2]),
+        3 | 4 | 5 => g | *rng.pick(&[0x8000_0000u32, 0x0040_0000, 0x0001_0000, 0xffff_0000]),
+        6 => (g & 0xffff) | ((rng.next() as u32) & 0xffff_0000),
+        _ => g,
+    }
+}
+
 fn gen_height(rng: &mut Rng) -> u32 {
     match rng.below(10) { 0 => 0, 1 => 499_999_997, 2 => 499_999_998, 3 => 499_999_996, 4 => u32::MAX - 1, 5 => u32::MAX - 2, _ => rng.range(1, 900_000) as u32 }
 }
@@ -577,8 +593,7 @@ impl Group for C09Sweep {
         "real Node + Ready Channel (StaticRemoteKey / AnchorsZeroFeeHtlc / Anchors-under-permissive-filter; Native/Ldk derivation; \
          allowlisted scripts and xpubs; default / single-tag-warn / permissive filter; feerate ranges): delayed, counterparty-HTLC and \
          justice sweeps with 0-4 outputs (the bad destination mostly not first), 0-3 inputs, signed input index in and out of range, \
-         heights 0..u32::MAX incl. the 500_000_000 boundary, locktimes at height+MAX_CHAIN_LAG±1 and in the time domain, sequences in and \
-         next to the permitted sets, commitment numbers around next_holder_commit_num+1; second-level HTLC txs (holder and counterparty, \
+         heights 0..u32::MAX incl. the 500_000_000 boundary, locktimes at height+MAX_CHAIN_LAG±1 and in the time domain, sequences in, next to and with BIP68 high bits (0x80000000, 0x00400000, 0x00010000, 0xffff0000) or-ed onto the permitted values, commitment numbers around next_holder_commit_num+1; second-level HTLC txs (holder and counterparty, \
          offered/received, both script forms) with mutated version/locktime/sequence/delay/revocation key/delayed key/value/extra inputs \
          and outputs and fees at the min/max feerate edges; non-trivial = at least one signature and one refusal"
     }
@@ -590,6 +605,8 @@ impl Group for C09Sweep {
             c("env 253;333333;d;n;-;- s|delayed 253;333333;d;n;-;- s 3 2 0 7 0 0 1 19 W/19/w|delayed 253;333333;d;n;-;- s 3 2 1000000 7 0 0 1 19 W/19/w|delayed 253;333333;d;n;-;- s 3 2 0 42 0 0 1 19 W/19/w"),
             // second output to a foreign script; time-domain locktime 500000000; locktime = height + 2 / + 3
             c("env 253;333333;d;n;-;- s|delayed 253;333333;d;n;-;- s 100 2 0 7 0 0 1 1 W/1/w,F/3/w|justice 253;333333;d;n;-;- s 100 2 500000000 0 0 1 W/1/w|justice 253;333333;d;n;-;- s 100 2 102 0 0 1 W/1/w|justice 253;333333;d;n;-;- s 100 2 103 0 0 1 W/1/w"),
+            // nSequence must equal the contest delay on all 32 bits: disable flag / time-units flag / high half set
+            c("env 253;333333;d;n;-;- s|delayed 253;333333;d;n;-;- s 100 2 0 2147483655 0 0 1 1 W/1/w|delayed 253;333333;d;n;-;- s 100 2 0 4194311 0 0 1 1 W/1/w|delayed 253;333333;d;n;-;- s 100 2 0 4294901767 0 0 1 1 W/1/w|delayed 253;333333;d;n;-;- s 100 2 0 65543 0 0 1 1 W/1/w"),
             // canonical HTLC-timeout (non-anchors, feerate 1000 → fee 663) and a wrong delay
             c("env 253;333333;d;n;-;- s|htlc 253;333333;d;n;-;- s h 2 131072 5:0:0 9337:r0/7/0 o 0 10000|htlc 253;333333;d;n;-;- s h 2 131072 5:0:0 9337:r0/6/0 o 0 10000"),
         ]
@@ -644,14 +661,14 @@ impl Group for C09Sweep {
                 let outs_s = join(&outs.iter().map(|d| d.to_string()).collect::<Vec<_>>());
                 match kind {
                     0 | 1 => {
-                        let seqs: Vec<u32> = (0..n_in).map(|_| match rng.below(8) { 0 => 6, 1 => 8, 2 => 0, _ => CP_DELAY as u32 }).collect();
+                        let seqs: Vec<u32> = (0..n_in).map(|_| gen_seq(rng, &[CP_DELAY as u32])).collect();
                         let nhc = rng.below(4);
                         let cnum = match rng.below(8) { 0 => nhc + 2, 1 => nhc + 1, 2 => nhc + 3, _ => rng.below(nhc + 1) };
                         ops.push(format!("delayed {} {} {} {} {} {} {} {} {} {} {}", cs, ct, height, ver, lt, join(&seqs), input, cnum, nhc, path_str(&wpath), outs_s));
                     }
                     2 | 3 => {
                         let good: &[u32] = if ct_anchors(ct) { &[1] } else { &[0, 0xffff_fffd, 0xffff_ffff] };
-                        let seqs: Vec<u32> = (0..n_in).map(|_| match rng.below(8) { 0 => 2, 1 => 0xffff_fffe, 2 => if ct_anchors(ct) { 0 } else { 1 }, _ => *rng.pick(good) }).collect();
+                        let seqs: Vec<u32> = (0..n_in).map(|_| gen_seq(rng, good)).collect();
                         let (script, lt) = match rng.below(10) {
                             0 => ("x".to_string(), lt),
                             1..=4 => ("o".to_string(), lt),
@@ -665,7 +682,7 @@ impl Group for C09Sweep {
                         ops.push(format!("cphtlc {} {} {} {} {} {} {} {} {} {} {}", cs, ct, height, ver, lt, join(&seqs), input, script, if form { 1 } else { 0 }, path_str(&wpath), outs_s));
                     }
                     _ => {
-                        let seqs: Vec<u32> = (0..n_in).map(|_| match rng.below(8) { 0 => 1, 1 => 0xffff_fffe, 2 => 7, _ => *rng.pick(&[0u32, 0xffff_fffd, 0xffff_ffff]) }).collect();
+                        let seqs: Vec<u32> = (0..n_in).map(|_| gen_seq(rng, &[0u32, 0xffff_fffd, 0xffff_ffff])).collect();
                         ops.push(format!("justice {} {} {} {} {} {} {} {} {}", cs, ct, height, ver, lt, join(&seqs), input, path_str(&wpath), outs_s));
                     }
                 }
